@@ -73,6 +73,8 @@ type Upstream struct {
 
 	idAlias  uint32
 	wireConn *wire.ClientConn
+	// connOutages is the connection's outage count at the moment this stream attached to wireConn (open or resume).
+	connOutages uint64
 
 	sent   sentStorage
 	logger log.Logger
@@ -332,8 +334,10 @@ func (u *Upstream) run(isResume bool) error {
 		u.sent.Clear(u.ctx, u.ID)
 	}
 	eg.Go(func() error {
+		// an outage since this stream attached to the connection (not the short-lived Reconnecting value: a fast redial can
+		// be over before this goroutine is woken, and the stream would stay attached to the dead wire connection)
 		u.connState.cond.L.Lock()
-		for !u.connState.IsWithoutLock(connStatusReconnecting) {
+		for u.connState.OutagesWithoutLock() == u.connOutages {
 			select {
 			case <-ctx.Done():
 				u.connState.cond.L.Unlock()
